@@ -25,6 +25,7 @@ type GenOpts struct {
 	// KeywordLike (optional): directive arguments ($ORIGIN, $INCLUDE origin) must not start with a
 	// label for which it returns true (known finding directive-arg-keyword).
 	KeywordLike func(token string) bool
+	NoNegativeOffset bool // $GENERATE modifiers only with offsets >= 0
 	OnlyGenerate    bool // mostly $GENERATE items (plus $ORIGIN / $TTL and a few records)
 	IncludeHeavy    bool // many $INCLUDE items, chains up to the depth limit
 }
@@ -296,7 +297,7 @@ func (g *zgen) iterPart(maxOffset int64, allowWidth bool) TPart {
 	p := TPart{Kind: TIterMod, NFields: g.n(3, "nf") + 1, Base: "d"}
 	if maxOffset > 0 {
 		p.Offset = int64(g.n(int(maxOffset)+1, "off"))
-		if g.p(25, "negoff") {
+		if g.p(25, "negoff") && !g.o.NoNegativeOffset {
 			p.Offset = -p.Offset
 		}
 	}
